@@ -191,7 +191,17 @@ func (ex *executor) runBody(st *state) []*state {
 		ex.anc[n] = an
 		switch n.kind {
 		case 1:
+			ex.backEdgeStates = nil
+			if len(ins) > 1 && len(ins) <= 6 {
+				// the invariants are checked per incoming path (smaller queries than on the merged state)
+				for _, s := range ins {
+					if s != nil && !s.dead && s.pc != False {
+						ex.backEdgeStates = append(ex.backEdgeStates, s)
+					}
+				}
+			}
 			ex.loopBack(n, cur)
+			ex.backEdgeStates = nil
 			continue
 		case 2:
 			ex.addObligation(cur, "unwind", fmt.Sprintf("loop %d unroll %d complete", n.loop.index, n.loop.lc.Unroll), Not(cur.pc), n.loop.pos)
@@ -350,7 +360,19 @@ func (ex *executor) loopBack(n *node, st *state) {
 			ex.addObligation(st, "inv-preserved", fmt.Sprintf("loop %d %s", li.index, clauseLabel(inv, i)), True, li.pos)
 			continue
 		}
-		ex.addObligation(st, "inv-preserved", fmt.Sprintf("loop %d %s", li.index, clauseLabel(inv, i)), Implies(st.pc, t), li.pos)
+		o := ex.addObligation(st, "inv-preserved", fmt.Sprintf("loop %d %s", li.index, clauseLabel(inv, i)), Implies(st.pc, t), li.pos)
+		if len(ex.backEdgeStates) > 1 && hasQuant(t) {
+			for _, bs := range ex.backEdgeStates {
+				bt := ex.evalBoolClause(inv, bs, ex.root().entry, nil)
+				if ex.assumedUnder(bs, bt) {
+					continue
+				}
+				o.Parts = append(o.Parts, Implies(bs.pc, bt))
+			}
+			if len(o.Parts) == 1 {
+				o.Goal, o.Parts = o.Parts[0], nil
+			}
+		}
 	}
 	ex.loopFrameObligation(li, st)
 	if lc.Decreases != nil {
